@@ -1,0 +1,332 @@
+//! Verification hooks for the validation visitors (compiled only with the
+//! `verif-hooks` feature).
+
+use std::cell::Cell;
+
+use async_graphql_value::Value;
+
+use super::{
+    visitor::{VisitMode, Visitor, VisitorContext, VisitorNil, visit},
+    visitors::{ComplexityCalculate, DepthCalculate},
+};
+use crate::{
+    Name, Pos, Positioned, Variables,
+    parser::types::{
+        Directive, ExecutableDocument, Field, FragmentDefinition, FragmentSpread, InlineFragment,
+        OperationDefinition, Selection, SelectionSet, VariableDefinition,
+    },
+    registry::{MetaTypeName, Registry},
+};
+
+/// Number of callbacks of the `Visitor` trait (besides `mode`).
+pub const N_CALLBACKS: usize = 26;
+
+/// Per-callback invocation counters.
+pub type Counters = Cell<[u8; N_CALLBACKS]>;
+
+/// A visitor that counts how often each callback is invoked on it.
+pub struct Recorder<'r>(pub &'r Counters);
+
+impl Recorder<'_> {
+    fn hit(&self, idx: usize) {
+        let mut counters = self.0.get();
+        counters[idx] += 1;
+        self.0.set(counters);
+    }
+}
+
+impl<'a> Visitor<'a> for Recorder<'_> {
+    fn enter_document(&mut self, _: &mut VisitorContext<'a>, _: &'a ExecutableDocument) {
+        self.hit(0)
+    }
+    fn exit_document(&mut self, _: &mut VisitorContext<'a>, _: &'a ExecutableDocument) {
+        self.hit(1)
+    }
+    fn enter_operation_definition(
+        &mut self,
+        _: &mut VisitorContext<'a>,
+        _: Option<&'a Name>,
+        _: &'a Positioned<OperationDefinition>,
+    ) {
+        self.hit(2)
+    }
+    fn exit_operation_definition(
+        &mut self,
+        _: &mut VisitorContext<'a>,
+        _: Option<&'a Name>,
+        _: &'a Positioned<OperationDefinition>,
+    ) {
+        self.hit(3)
+    }
+    fn enter_fragment_definition(
+        &mut self,
+        _: &mut VisitorContext<'a>,
+        _: &'a Name,
+        _: &'a Positioned<FragmentDefinition>,
+    ) {
+        self.hit(4)
+    }
+    fn exit_fragment_definition(
+        &mut self,
+        _: &mut VisitorContext<'a>,
+        _: &'a Name,
+        _: &'a Positioned<FragmentDefinition>,
+    ) {
+        self.hit(5)
+    }
+    fn enter_variable_definition(
+        &mut self,
+        _: &mut VisitorContext<'a>,
+        _: &'a Positioned<VariableDefinition>,
+    ) {
+        self.hit(6)
+    }
+    fn exit_variable_definition(
+        &mut self,
+        _: &mut VisitorContext<'a>,
+        _: &'a Positioned<VariableDefinition>,
+    ) {
+        self.hit(7)
+    }
+    fn enter_directive(&mut self, _: &mut VisitorContext<'a>, _: &'a Positioned<Directive>) {
+        self.hit(8)
+    }
+    fn exit_directive(&mut self, _: &mut VisitorContext<'a>, _: &'a Positioned<Directive>) {
+        self.hit(9)
+    }
+    fn enter_argument(
+        &mut self,
+        _: &mut VisitorContext<'a>,
+        _: &'a Positioned<Name>,
+        _: &'a Positioned<Value>,
+    ) {
+        self.hit(10)
+    }
+    fn exit_argument(
+        &mut self,
+        _: &mut VisitorContext<'a>,
+        _: &'a Positioned<Name>,
+        _: &'a Positioned<Value>,
+    ) {
+        self.hit(11)
+    }
+    fn enter_selection_set(
+        &mut self,
+        _: &mut VisitorContext<'a>,
+        _: &'a Positioned<SelectionSet>,
+    ) {
+        self.hit(12)
+    }
+    fn exit_selection_set(&mut self, _: &mut VisitorContext<'a>, _: &'a Positioned<SelectionSet>) {
+        self.hit(13)
+    }
+    fn enter_selection(&mut self, _: &mut VisitorContext<'a>, _: &'a Positioned<Selection>) {
+        self.hit(14)
+    }
+    fn exit_selection(&mut self, _: &mut VisitorContext<'a>, _: &'a Positioned<Selection>) {
+        self.hit(15)
+    }
+    fn enter_field(&mut self, _: &mut VisitorContext<'a>, _: &'a Positioned<Field>) {
+        self.hit(16)
+    }
+    fn exit_field(&mut self, _: &mut VisitorContext<'a>, _: &'a Positioned<Field>) {
+        self.hit(17)
+    }
+    fn enter_fragment_spread(
+        &mut self,
+        _: &mut VisitorContext<'a>,
+        _: &'a Positioned<FragmentSpread>,
+    ) {
+        self.hit(18)
+    }
+    fn exit_fragment_spread(
+        &mut self,
+        _: &mut VisitorContext<'a>,
+        _: &'a Positioned<FragmentSpread>,
+    ) {
+        self.hit(19)
+    }
+    fn enter_inline_fragment(
+        &mut self,
+        _: &mut VisitorContext<'a>,
+        _: &'a Positioned<InlineFragment>,
+    ) {
+        self.hit(20)
+    }
+    fn exit_inline_fragment(
+        &mut self,
+        _: &mut VisitorContext<'a>,
+        _: &'a Positioned<InlineFragment>,
+    ) {
+        self.hit(21)
+    }
+    fn enter_input_value(
+        &mut self,
+        _: &mut VisitorContext<'a>,
+        _: Pos,
+        _: &Option<MetaTypeName<'a>>,
+        _: &'a Value,
+    ) {
+        self.hit(22)
+    }
+    fn exit_input_value(
+        &mut self,
+        _: &mut VisitorContext<'a>,
+        _: Pos,
+        _: &Option<MetaTypeName<'a>>,
+        _: &Value,
+    ) {
+        self.hit(23)
+    }
+}
+
+/// The syntax nodes the callbacks are invoked with.
+pub struct Fixtures {
+    pub doc: ExecutableDocument,
+    pub name: Positioned<Name>,
+    pub operation: Positioned<OperationDefinition>,
+    pub fragment: Positioned<FragmentDefinition>,
+    pub variable: Positioned<VariableDefinition>,
+    pub directive: Positioned<Directive>,
+    pub value: Positioned<Value>,
+    pub selection_set: Positioned<SelectionSet>,
+    pub selection: Positioned<Selection>,
+    pub field: Positioned<Field>,
+    pub spread: Positioned<FragmentSpread>,
+    pub inline: Positioned<InlineFragment>,
+}
+
+fn invoke<'a, V: Visitor<'a>>(
+    v: &mut V,
+    ctx: &mut VisitorContext<'a>,
+    fx: &'a Fixtures,
+    which: usize,
+) {
+    match which {
+        0 => v.enter_document(ctx, &fx.doc),
+        1 => v.exit_document(ctx, &fx.doc),
+        2 => v.enter_operation_definition(ctx, Some(&fx.name.node), &fx.operation),
+        3 => v.exit_operation_definition(ctx, Some(&fx.name.node), &fx.operation),
+        4 => v.enter_fragment_definition(ctx, &fx.name.node, &fx.fragment),
+        5 => v.exit_fragment_definition(ctx, &fx.name.node, &fx.fragment),
+        6 => v.enter_variable_definition(ctx, &fx.variable),
+        7 => v.exit_variable_definition(ctx, &fx.variable),
+        8 => v.enter_directive(ctx, &fx.directive),
+        9 => v.exit_directive(ctx, &fx.directive),
+        10 => v.enter_argument(ctx, &fx.name, &fx.value),
+        11 => v.exit_argument(ctx, &fx.name, &fx.value),
+        12 => v.enter_selection_set(ctx, &fx.selection_set),
+        13 => v.exit_selection_set(ctx, &fx.selection_set),
+        14 => v.enter_selection(ctx, &fx.selection),
+        15 => v.exit_selection(ctx, &fx.selection),
+        16 => v.enter_field(ctx, &fx.field),
+        17 => v.exit_field(ctx, &fx.field),
+        18 => v.enter_fragment_spread(ctx, &fx.spread),
+        19 => v.exit_fragment_spread(ctx, &fx.spread),
+        20 => v.enter_inline_fragment(ctx, &fx.inline),
+        21 => v.exit_inline_fragment(ctx, &fx.inline),
+        22 => v.enter_input_value(ctx, fx.value.pos, &None, &fx.value.node),
+        23 => v.exit_input_value(ctx, fx.value.pos, &None, &fx.value.node),
+        _ => {}
+    }
+}
+
+/// Invokes callback number `which` once on the composite visitor
+/// `VisitorNil.with(a).with(b).with(c)`, where `a`, `b` and `c` are
+/// recorders writing to the given counters.
+pub fn cons_invoke(
+    registry: &Registry,
+    fx: &Fixtures,
+    which: usize,
+    a: &Counters,
+    b: &Counters,
+    c: &Counters,
+) {
+    let mut ctx = VisitorContext::new(registry, &fx.doc, None, None);
+    let mut visitor = VisitorNil
+        .with(Recorder(a))
+        .with(Recorder(b))
+        .with(Recorder(c));
+    invoke(&mut visitor, &mut ctx, fx, which);
+}
+
+/// Drives the real depth and complexity visitors, composed as `check_rules`
+/// composes them, with a script of field events (`true` = `enter_field`,
+/// `false` = `exit_field`) between `enter_document` and `exit_document`.
+/// Returns `(depth, complexity)`.
+pub fn drive_depth_complexity(
+    registry: &Registry,
+    doc: &ExecutableDocument,
+    field: &Positioned<Field>,
+    script: &[bool],
+) -> (usize, usize) {
+    let mut complexity = 0;
+    let mut depth = 0;
+    {
+        let mut ctx = VisitorContext::new(registry, doc, None, None);
+        let mut visitor = VisitorNil
+            .with(ComplexityCalculate::new(&mut complexity))
+            .with(DepthCalculate::new(&mut depth));
+        visitor.enter_document(&mut ctx, doc);
+        for enter in script {
+            if *enter {
+                visitor.enter_field(&mut ctx, field);
+            } else {
+                visitor.exit_field(&mut ctx, field);
+            }
+        }
+        visitor.exit_document(&mut ctx, doc);
+    }
+    (depth, complexity)
+}
+
+/// Runs the real document walk with only the depth and complexity visitors.
+/// Returns `(depth, complexity, number of errors)`.
+pub fn visit_depth_complexity(
+    registry: &Registry,
+    doc: &ExecutableDocument,
+    variables: Option<&Variables>,
+) -> (usize, usize, usize) {
+    let mut complexity = 0;
+    let mut depth = 0;
+    let errors = {
+        let mut ctx = VisitorContext::new(registry, doc, variables, None);
+        let mut visitor = VisitorNil
+            .with(ComplexityCalculate::new(&mut complexity))
+            .with(DepthCalculate::new(&mut depth));
+        visit(&mut visitor, &mut ctx, doc);
+        ctx.errors.len()
+    };
+    (depth, complexity, errors)
+}
+
+/// `check_rules` in fast mode; `Ok((depth, complexity))` or the number of
+/// errors.
+pub fn check_rules_fast(
+    registry: &Registry,
+    doc: &ExecutableDocument,
+    limit_complexity: Option<usize>,
+    limit_depth: Option<usize>,
+) -> Result<(usize, usize), usize> {
+    match super::check_rules(
+        registry,
+        doc,
+        None,
+        None,
+        super::ValidationMode::Fast,
+        limit_complexity,
+        limit_depth,
+    ) {
+        Ok(res) => Ok((res.depth, res.complexity)),
+        Err(errors) => {
+            let n = errors.len();
+            std::mem::forget(errors);
+            Err(n)
+        }
+    }
+}
+
+/// Whether the composite of two recorders reports the visit mode of its head.
+pub fn cons_mode_is_inline(a: &Counters, b: &Counters) -> bool {
+    VisitorNil.with(Recorder(a)).with(Recorder(b)).mode() == VisitMode::Inline
+}
